@@ -222,6 +222,9 @@ pub struct Exec {
     pub model: Model,
     /// first disagreement between the real heap and the model, if any
     pub problem: Option<(String, String)>,
+    /// the problem was found by the audit at the END of the history (the state reached by the history itself
+    /// agreed with the model, so its key is valid and the search may go on from it)
+    pub at_end: bool,
     /// state key: model + real internal order (as handles) + mark bits
     pub key: u64,
     pub max_managed: usize,
@@ -341,6 +344,7 @@ pub fn execute(history: &[Op]) -> Exec {
         }
     }
     // ---- end of history: the caller releases what it owns, the collector the rest; nothing may remain
+    let mut at_end = false;
     if problem.is_none() {
         drop(gc.take());
         for (h, mo) in model.objs.iter().enumerate() {
@@ -355,11 +359,12 @@ pub fn execute(history: &[Op]) -> Exec {
         } else if !left.is_empty() {
             problem = Some(("C04".into(), format!("at the end of the history: {} box(es) were never released", left.len())));
         }
+        at_end = problem.is_some();
     } else {
         drop(gc.take());
     }
     verif::ledger_forget();
-    Exec { model, problem, key, max_managed }
+    Exec { model, problem, at_end, key, max_managed }
 }
 
 pub struct Bounds {
@@ -414,8 +419,15 @@ pub fn explore(sh: &mut Shard, b: &Bounds, which: &str) {
                 }
                 if prop == which || which == "both" {
                     sh.violation("collector-history", json!({"history": h2.iter().map(|o| o.text()).collect::<Vec<_>>()}), why.clone());
+                    continue;
                 }
-                continue;
+                // a problem of the OTHER property: if it was only found by the end-of-history audit, the state
+                // itself is sound for this property and the search goes on from it; otherwise the state is
+                // not what the model describes and is not expanded
+                if !ex.at_end {
+                    sh.count("states-not-expanded-because-of-the-other-property");
+                    continue;
+                }
             }
             if seen.insert(ex.key) {
                 sh.count("states");
